@@ -59,6 +59,25 @@ def work(tasks, idx):
                                        "case": cases.reg_case(r.credential, e), "match": {"op": "verify_reg", "exception": code["nonlib"]}})
             if len(res.samples) < 4:
                 res.samples.append({"fmt": fmt, "faults": list(fs) + list(chain), "outcome": corr.kind(code), "message": code.get("msg")})
+        elif t[0] == "json":
+            from . import C13
+            C13.work.driver_ok = work.driver_ok
+            part = C13.work([t[1]], idx)
+            corr.merge(res, [part])
+        elif t[0] == "reg-alg":
+            _, alg, allowed = t
+            cred = core.SimCredential(priv=__import__("harness.sim.keys", fromlist=["x"]).get("p256", 0), alg=alg, cred_id=b"unregistered-alg")
+            req = attest.RegRequest(fmt="none", cred=cred)
+            r = attest.build_registration(req)
+            e = _reg.expectation(req, r.roots, algs=allowed)
+            code = cases.run_reg(r.credential, e)
+            res.evaluations += 1
+            tie.check(cases.reg_case(r.credential, e), code, label=["alg", alg])
+            res.nontrivial.add(t[:2])
+            res.count("reg-alg:" + corr.kind(code))
+            if code["k"] == "reject" and "nonlib" in code:
+                res.violations.append({"why": f"registration with COSE alg {alg} not in the allowed list raised {code['nonlib']}: {code.get('msg')}",
+                                       "case": cases.reg_case(r.credential, e), "match": {"op": "verify_reg", "exception": code["nonlib"]}})
         else:  # CBOR helpers on arbitrary bytes
             _, seed, n = t
             rng = common.Rng(seed)
@@ -103,6 +122,13 @@ def run(ctx, res):
             tasks.append(("reg", fmt, rng.choice(choices), tuple(rng.sample(attest.applicable(fmt), 2)), ()))
     for i in range(16):
         tasks.append(("cbor", ctx.seed * 31 + i, 200 if ctx.quick() else 5000))
+    for kind in ("reg", "auth"):
+        tasks.append(("json", (kind, 0, -1)))
+        for i in range(4):
+            tasks.append(("json", (kind, ctx.seed * 101 + i, 150 if ctx.quick() else 3000)))
+    for alg in (-35, -47, -9, 0, 5, -7, -8, -257, -65535, 2 ** 40):
+        tasks.append(("reg-alg", alg, [-257, -8]))
+        tasks.append(("reg-alg", alg, []))
     work.driver_ok = ctx.driver_ok
     corr.merge(res, corr.parallel(work, tasks))
     res.rule = ("reflection over every exception class of webauthn.helpers.exceptions; every fault and fault combination of the C01-C04 "
